@@ -614,6 +614,8 @@ pub fn eval(expr: Node) -> Result<Number, Box<dyn error::Error>> {
                             };
                             let keep_left = match (&l, &r) {
                                 (Number::Integer(a), Number::Integer(b)) => a < b,
+                                // an Integer beyond 2^53 against a Float: on the exact values, not on the rounded double
+                                _ if !lf64.is_nan() && !rf64.is_nan() => cmp_exact(&l, &r).is_lt(),
                                 _ => lf64 < rf64,
                             };
                             if keep_left {
@@ -654,6 +656,7 @@ pub fn eval(expr: Node) -> Result<Number, Box<dyn error::Error>> {
                             };
                             let keep_left = match (&l, &r) {
                                 (Number::Integer(a), Number::Integer(b)) => a > b,
+                                _ if !lf64.is_nan() && !rf64.is_nan() => cmp_exact(&l, &r).is_gt(),
                                 _ => lf64 > rf64,
                             };
                             if keep_left {
